@@ -1197,6 +1197,38 @@ def fam_search(P, n, tier):
     return out
 
 
+def fam_needall(P, n, tier):
+    """C06/C04: `need_all_vars`, read-only variables anywhere in the list, with and without a write handler,
+    lines that give 0..n+1 fields (all fields are valid small numbers, so only the COUNT decides)"""
+    out = []
+    for i in range(n):
+        sc = Scn('na%d' % i, cap=1, buf_size=P.choice([64, 80]), ubuf_size=-1, fill=0)
+        nv = P.randint(1, 5)
+        acc = [P.choice([RW, RW, RO, WO]) for _ in range(nv)]
+        if i % 3 == 0:
+            k0 = P.randint(0, nv - 1)
+            acc = [RW] * k0 + [RO] * (nv - k0)          # trailing read-only variables
+        if all(a == RO for a in acc):
+            acc[0] = RW
+        vars = [Var(P.choice([UINT, INT, HEX]), P.choice([1, 2, 4]), a, init=bytes(4)[:1]) for a in acc]
+        for v in vars:
+            v.init = bytes(v.size)
+        c = Cmd('+C', w=P.chance(0.7), vars=vars, need_all=P.chance(0.6))
+        sc.add_group([c])
+        if c.w:
+            sc.script(0, c.ci, 0, [Res(RC['OK'])] * 12)
+        for k in list(range(0, nv + 2)):
+            fields = []
+            for j in range(k):
+                v = vars[j] if j < nv else vars[-1]
+                fields.append('0x1' if v.vtype == HEX else '1')
+            sc.feed('AT+C=' + ','.join(fields) + '\n')
+            sc.drain(3000)
+        sc.meta['needall'] = (nv, c.need_all, c.w)
+        out.append(sc)
+    return out
+
+
 def fam_bigcap(P, n, tier):
     """C13: an event queue of 260 entries (more than one byte can count): fill it completely, overfill it,
     drain it, fill again across the wrap-around; FIFO order is visible because the events alternate between
@@ -1446,7 +1478,7 @@ def fam_exharg(P, n, tier):
 FAMILIES = {
     'mixed': fam_mixed, 'names': fam_names, 'num': fam_num, 'buf': fam_buf, 'cap': fam_cap, 'rc': fam_rc,
     'events': fam_events, 'hold': fam_hold, 'mutex': fam_mutex, 'lines': fam_lines, 'rt': fam_rt,
-    'wo': fam_wo, 'list': fam_list, 'bytes': fam_bytes, 'sched': fam_sched, 'units': fam_units, 'lanes': fam_lanes, 'search': fam_search, 'manycmds': fam_manycmds, 'testev': fam_testev, 'overlap': fam_overlap, 'bigcap': fam_bigcap, 'exh': fam_exh, 'mxev': fam_mxev, 'exharg': fam_exharg,
+    'wo': fam_wo, 'list': fam_list, 'bytes': fam_bytes, 'sched': fam_sched, 'units': fam_units, 'lanes': fam_lanes, 'search': fam_search, 'manycmds': fam_manycmds, 'testev': fam_testev, 'overlap': fam_overlap, 'bigcap': fam_bigcap, 'needall': fam_needall, 'exh': fam_exh, 'mxev': fam_mxev, 'exharg': fam_exharg,
 }
 
 
